@@ -107,6 +107,40 @@ type skAtom struct {
 	cond  ssa.Value
 	truth bool
 	pos   token.Pos
+	from  *ssa.BasicBlock
+}
+
+var cmpSet = map[token.Token]int{token.LSS: 1, token.LEQ: 3, token.EQL: 2, token.NEQ: 5, token.GEQ: 6, token.GTR: 4}
+
+// dead: the edge cannot be taken — a comparison that dominates the branch already settles the same two
+// operands the other way (a "belt and braces" re-test of something established above).
+func (a skAtom) dead() bool {
+	if a.from == nil {
+		return false
+	}
+	me, ok := asCmp(a.cond, a.truth)
+	if !ok {
+		for _, f := range factsAt(a.from) {
+			if f.Cond == a.cond && f.Truth != a.truth {
+				return true
+			}
+		}
+		return false
+	}
+	for _, f := range cmpFactsAt(a.from) {
+		op := f.Op
+		switch {
+		case sameValue(f.X, me.X) && sameValue(f.Y, me.Y):
+		case sameValue(f.X, me.Y) && sameValue(f.Y, me.X):
+			op = swapOp(op)
+		default:
+			continue
+		}
+		if cmpSet[op]&cmpSet[me.Op] == 0 && cmpSet[op] != 0 && cmpSet[me.Op] != 0 {
+			return true
+		}
+	}
+	return false
 }
 
 // guardAtoms: the branch conditions on the edges into block b (through
@@ -138,7 +172,7 @@ func guardAtoms(b *ssa.BasicBlock) []skAtom {
 						}
 					}
 				}
-				out = append(out, skAtom{cond: t.Cond, truth: p.Succs[0] == x, pos: pos})
+				out = append(out, skAtom{cond: t.Cond, truth: p.Succs[0] == x, pos: pos, from: p})
 			case *ssa.Jump:
 				walk(p, d+1)
 			}
@@ -352,6 +386,168 @@ func (e *skEnv) canon(fn *ssa.Function, a skAtom) string {
 	return fmt.Sprintf("%s is %v", e.desc(fn, a.cond, 0), a.truth)
 }
 
+// skLin is a linear form over named atoms plus a constant. The atoms LEN (len of the buffer), I (the
+// cursor) and LEFT (bytes left) are the buffer's state; any other value is an atom of its own.
+type skLin struct {
+	c map[string]int64
+	k int64
+	v map[string]ssa.Value
+}
+
+func newLin() skLin { return skLin{c: map[string]int64{}, v: map[string]ssa.Value{}} }
+
+func (l skLin) add(o skLin, sign int64) skLin {
+	for a, c := range o.c {
+		l.c[a] += sign * c
+		if o.v[a] != nil {
+			l.v[a] = o.v[a]
+		}
+	}
+	l.k += sign * o.k
+	return l
+}
+
+func (l skLin) clean() {
+	for a, c := range l.c {
+		if c == 0 {
+			delete(l.c, a)
+		}
+	}
+}
+
+func (l skLin) equal(o skLin) bool {
+	l.clean()
+	o.clean()
+	if l.k != o.k || len(l.c) != len(o.c) {
+		return false
+	}
+	for a, c := range l.c {
+		if o.c[a] != c {
+			return false
+		}
+	}
+	return true
+}
+
+func (e *skEnv) linOf(fn *ssa.Function, v ssa.Value, d int) (skLin, bool) {
+	l := newLin()
+	if d > 8 {
+		return l, false
+	}
+	switch x := v.(type) {
+	case *ssa.Const:
+		k, ok := constInt(x)
+		if !ok {
+			return l, false
+		}
+		l.k = k
+		return l, true
+	case *ssa.Convert:
+		return e.linOf(fn, x.X, d+1)
+	case *ssa.ChangeType:
+		return e.linOf(fn, x.X, d+1)
+	case *ssa.BinOp:
+		if x.Op == token.ADD || x.Op == token.SUB {
+			a, ok1 := e.linOf(fn, x.X, d+1)
+			b, ok2 := e.linOf(fn, x.Y, d+1)
+			if !ok1 || !ok2 {
+				return l, false
+			}
+			sign := int64(1)
+			if x.Op == token.SUB {
+				sign = -1
+			}
+			return a.add(b, sign), true
+		}
+	case *ssa.UnOp:
+		if x.Op == token.SUB {
+			a, ok := e.linOf(fn, x.X, d+1)
+			if !ok {
+				return l, false
+			}
+			return newLin().add(a, -1), true
+		}
+		if x.Op == token.MUL {
+			if fa, ok := x.X.(*ssa.FieldAddr); ok && e.isBufParam(fn, fa.X) {
+				if bt, ok := x.Type().Underlying().(*types.Basic); ok && bt.Info()&types.IsInteger != 0 {
+					l.c["I"] = 1
+					return l, true
+				}
+			}
+		}
+	case *ssa.Call:
+		if bi, ok := x.Call.Value.(*ssa.Builtin); ok && bi.Name() == "len" && len(x.Call.Args) == 1 {
+			if u, isU := x.Call.Args[0].(*ssa.UnOp); isU && u.Op == token.MUL {
+				if fa, isF := u.X.(*ssa.FieldAddr); isF && e.isBufParam(fn, fa.X) {
+					l.c["LEN"] = 1
+					return l, true
+				}
+			}
+		}
+		if g := x.Call.StaticCallee(); g != nil && g.Signature.Recv() != nil && isReadBufPtr(g.Signature.Recv().Type()) && !e.consuming[g] && len(x.Call.Args) == 1 {
+			// the buffer's own "bytes left"
+			l.c["LEN"], l.c["I"] = 1, -1
+			return l, true
+		}
+	}
+	// any other value is an atom of its own (named by its access path when it has one, so that two loads
+	// of the same field are the same atom)
+	name := accessPath(stripConv(v))
+	if name == "" || strings.Contains(name, "@") {
+		name = fmt.Sprintf("%p", stripConv(v))
+	}
+	l.c["v:"+name] = 1
+	l.v["v:"+name] = v
+	return l, true
+}
+
+// lackOfConsumed: the atom says "fewer than N bytes are left" for an N that the function goes on to consume.
+func (e *skEnv) lackOfConsumed(fn *ssa.Function, a skAtom, amounts []ssa.Value) bool {
+	cmp, ok := asCmp(a.cond, a.truth)
+	if !ok {
+		return false
+	}
+	x, ok1 := e.linOf(fn, cmp.X, 0)
+	y, ok2 := e.linOf(fn, cmp.Y, 0)
+	if !ok1 || !ok2 {
+		return false
+	}
+	d := x.add(y, -1) // X - Y  op  0
+	op := cmp.Op
+	d.clean()
+	// want  LEN - I - N  op  0  with op in {<, <=}
+	if d.c["LEN"] == -1 && d.c["I"] == 1 {
+		d = newLin().add(d, -1)
+		op = swapOp(op)
+	}
+	if d.c["LEN"] != 1 || d.c["I"] != -1 {
+		return false
+	}
+	delete(d.c, "LEN")
+	delete(d.c, "I")
+	n := newLin().add(d, -1) // left - N op 0
+	switch op {
+	case token.LSS:
+	case token.LEQ:
+		n.k++
+	default:
+		return false
+	}
+	for _, am := range amounts {
+		al, ok := e.linOf(fn, am, 0)
+		if !ok {
+			continue
+		}
+		if _, isState := al.c["I"]; isState {
+			continue
+		}
+		if al.equal(n) {
+			return true
+		}
+	}
+	return false
+}
+
 type skSite struct {
 	fn    *ssa.Function
 	ret   *ssa.Return
@@ -450,28 +646,16 @@ func ruleSKFail(c *Ctx) {
 					continue
 				}
 				for _, a := range s.atoms {
+					if a.dead() {
+						continue
+					}
 					var lv skLeaves
 					e.leaves(s.fn, a.cond, 0, &lv)
 					where := P.pos(a.pos)
 					switch {
 					case lv.state:
-						// the other side must be an amount about to be consumed
-						ok := false
-						if cmp, isC := asCmp(a.cond, a.truth); isC {
-							for _, side := range []ssa.Value{cmp.X, cmp.Y} {
-								var sl skLeaves
-								e.leaves(s.fn, side, 0, &sl)
-								if sl.state {
-									continue
-								}
-								for _, am := range amounts {
-									if stripConv(am) == stripConv(side) || sameValue(stripConv(am), stripConv(side)) {
-										ok = true
-									}
-								}
-							}
-						}
-						if !ok {
+						// "refuse when fewer than N bytes are left": N must be an amount about to be consumed
+						if !e.lackOfConsumed(s.fn, a, amounts) {
 							bad = append(bad, fmt.Sprintf("%s refuses at %s on the amount of input left (%s), compared with something that is not the number of bytes it is about to consume: a value that needs fewer bytes is rejected", m, where, e.canon(s.fn, a)))
 						}
 					case lv.wire && m == "Skip":
